@@ -64,14 +64,26 @@ func (m *SeqMon[T]) CheckAll(full bool) {
 		c.Fail("empty", "", "%s.Empty() = %v with %d elements", m.Name, e, n)
 	}
 	c.Count("obs:Size", 1)
+	if n > 1000 {
+		c.Count("obs:on-list-larger-than-1000", 1)
+	}
 	if full {
 		vs := m.L.Values()
 		if !eqSlices(vs, m.Model) {
 			c.Fail("values", "", "%s.Values() = %s, abstract sequence = %s", m.Name, short(vs), short(m.Model))
 		}
 		c.Count("obs:Values", 1)
-		for j := -1; j <= n; j++ {
-			m.checkGet(j)
+		if n <= 256 {
+			for j := -1; j <= n; j++ {
+				m.checkGet(j)
+			}
+		} else { // Get is linear on the linked lists: sample
+			for k := 0; k < 24; k++ {
+				m.checkGet(c.R.Range(-1, n))
+			}
+			for _, j := range []int{-1, 0, 1, n / 2, n - 2, n - 1, n} {
+				m.checkGet(j)
+			}
 		}
 		for _, v := range m.D.Alpha {
 			m.checkIndexOf(v)
@@ -230,6 +242,10 @@ func genListOp[T comparable](r *core.R, d *Dom[T], n int, maxN int) listOp[T] {
 		w[0], w[1], w[2], w[3] = 1, 0, 0, 1
 		w[4] = 20
 	}
+	if maxN > 500 {
+		w[8] = 0 // a Clear every ~50 calls would keep the list small for ever
+		w[7] = 1
+	}
 	switch r.Pick(w...) {
 	case 0:
 		return listOp[T]{kind: "Add", vs: d.Vals(r, varCount(r))}
@@ -378,8 +394,12 @@ func runC03(c *core.Ctx) {
 		runListSweep(c, IntDom(5), i)
 	case i%20 == 0:
 		runListSawtooth(c, IntDom(6))
+	case i%400 == 21:
+		runListHistory(c, IntDom(12), 7000, c.R.Range(2000, 5000)) // sizes that small tests never reach
 	case i%20 == 1:
 		runListHistory(c, IntDom(8), 400, c.R.Range(100, 300))
+	case i%20 == 6:
+		runListHistory(c, StructDom(c.R.Range(3, 10)), c.R.Range(20, 120), c.R.Range(4, 24))
 	case i%20 == 2 && c.Tier == "thorough":
 		runListHistory(c, IntDom(12), 1500, c.R.Range(1000, 3000))
 	case i%4 == 3:
